@@ -321,7 +321,8 @@ package httpgrpc
 //@   ensures[C02,C14] failure_goes_to_the_error_renderer_once: called("grpc.MethodDesc.Handler") && lastresult("grpc.MethodDesc.Handler", 1) != nil ==> calls("var:errHandler") == 1 && !called("http.ResponseWriter.Write") && !called(writeError)
 //@   ensures[C02,C08] success_writes_the_response_once: called("grpc.MethodDesc.Handler") && lastresult("grpc.MethodDesc.Handler", 1) == nil ==> !called("var:errHandler") && ((lastresult("encoding.Codec.Marshal", 1) != nil ==> calls(writeError) == 1 && lastarg(writeError, 1) == 500 && !called("http.ResponseWriter.Write")) && (lastresult("encoding.Codec.Marshal", 1) == nil ==> calls("http.ResponseWriter.Write") == 1 && !called(writeError) && lastarg("http.ResponseWriter.Write", 1) == lastresult("encoding.Codec.Marshal", 0)))
 //@   assert_call[C02,C14] var:errHandler : with_request_context_and_nonzero_code: arg0 == req_ctx(r) && arg2 == w && status_code(arg1) != 0
-//@   assert_call[C04,C02] var:errHandler : a_handlers_context_error_has_the_matching_code: (lastresult("grpc.MethodDesc.Handler", 1) == context.DeadlineExceeded ==> status_code(arg1) == 4 && statProto.Code == 4) && (lastresult("grpc.MethodDesc.Handler", 1) == context.Canceled ==> status_code(arg1) == 1 && statProto.Code == 1)
+//@   assert_call[C04,C02] var:errHandler : a_handlers_context_error_has_the_matching_code: (lastresult("grpc.MethodDesc.Handler", 1) == context.DeadlineExceeded ==> status_code(arg1) == 4) && (lastresult("grpc.MethodDesc.Handler", 1) == context.Canceled ==> status_code(arg1) == 1)
+//@   assert_call[C04,C02] (http.Header).Set : status_header_of_a_handlers_context_error_has_the_matching_code: arg1 == "X-GRPC-Status" ==> (lastresult("grpc.MethodDesc.Handler", 1) == context.DeadlineExceeded ==> statProto.Code == 4) && (lastresult("grpc.MethodDesc.Handler", 1) == context.Canceled ==> statProto.Code == 1)
 //@   assert_call[C02] encoding.Codec.Marshal : same_codec_as_the_request: arg0 == lastresult(getUnaryCodec)
 //@   ensures[C11] request_body_drained_and_closed: calls(drainAndClose) == 1
 //@   modifies everything
